@@ -138,14 +138,20 @@ def wvContentW (c : WCfg) (s : Bytes) (st : WSt) : Except Err (Option WSt) :=
       | some r => pure (some (st.emit (extW r.token)))
       | none => pure none
 
+/-- The base64 text the two routines below decode: a copy of the C string with every `isspace` byte
+    removed (`wbxml_buffer_create_from_cstr`, `wbxml_buffer_no_spaces`) — line-wrapped or indented
+    base64 denotes the same bytes (before the fix the decoder stopped at the first white space). -/
+def b64TextW (s : Bytes) : Bytes := s.filter (fun b => !isSpaceC b)
+
 /-- `wbxml_encode_drmrel_content`: text directly under a `ds:KeyValue` token element is sent as the
-    bytes its base64 form denotes (`wbxml_base64_decode(buffer, -1, …)` never reports failure: what
-    cannot be decoded yields fewer, possibly zero, bytes). `parent` is `current_text_parent->name`. -/
+    bytes its base64 form denotes (white space removed first; `wbxml_base64_decode(cstr, -1, …)` never
+    reports failure: what cannot be decoded yields fewer, possibly zero, bytes).
+    `parent` is `current_text_parent->name`. -/
 def drmrelContentW (parent : Option Name) (s : Bytes) (st : WSt) : Except Err (Option WSt) :=
   match parent with
   | some (.token r) =>
     if r.page == 0 && r.token == 0x0C then do
-      let d ← b64DecodeE s
+      let d ← b64DecodeE (b64TextW s)
       pure (some (st.emit (opaqueW d)))
     else pure none
   | _ => pure none
@@ -156,7 +162,7 @@ def otaIconW (nodeAttrs : Option (List Attr)) (s : Bytes) (st : WSt) : Except Er
   match st.curTag, nodeAttrs with
   | some _, some attrs =>
     if attrs.any (fun a => a.name.cName == b!"NAME" && cstrOf a.value == b!"ICON") then do
-      let d ← b64DecodeE s
+      let d ← b64DecodeE (b64TextW s)
       pure (some (st.emit (opaqueW d)))
     else pure none
   | _, _ => pure none
